@@ -397,7 +397,7 @@ def r7(ctx):
     """"each [round] fitting cluster statistics and MRFs to the current labels before relabelling ... the returned labelling is a
     minimum-cost labelling for the returned model": the two mechanisms the loop delegates to."""
     from . import c01, c14, c20
-    ctx.sub(c14.r2, only=("producer:", "consumer:"))     # result k of the optimiser updates cluster k (never completion order)
+    ctx.sub(c14.r2, only=("producer:", "consumer:", "unordered:"))     # result k of the optimiser updates cluster k (never completion order)
     ctx.sub(c20.r2, only=("get:",))                       # ... and a failed or slow task is never replaced by the previous MRF
     for r_ in (c01.r1, c01.r2, c01.r3, c01.r4, c01.r6, c01.r7):
         ctx.sub(r_)                                       # the relabel kernel returns a minimum-cost sequence and its cost
@@ -512,6 +512,43 @@ def _lifecycle(ctx, which):
             ok = isinstance(arg, ast.Name) and bool(rd.origins(o_, arg.id)) and {d.id for d in rd.origins(o_, arg.id)} <= {x.id for x in st}
             ctx.check(ok, fi, "the optimiser fits the state the statistics phase produced", line=o_.lineno, role="fit-pairs:thread",
                       found=unparse(arg) if arg is not None else "missing")
+    if "bic-state" in which:
+        # C16: the criterion is computed from the very state whose labels and MRFs the result reports
+        bic = calls_to(ana, fi, "fast_ticc.cluster_metrics.bayesian_information_criterion")
+        ctor = calls_to(ana, fi, "fast_ticc.containers.results.SingleDataSeriesResult")
+        if not bic or len(ctor) != 1:
+            raise AnalysisError("BIC call / result constructor not found in the main loop function")
+        kw = {k.arg: k.value for k in ctor[0].node.keywords}
+        fl = Flow(ana, fi)
+
+        def state_origins(expr):
+            """definitions of the ModelState variables read while the expression's value is computed (first state read on each
+            dependency chain: the statements that define the value, not the states those were derived from)"""
+            out = set()
+            dep = fl.closure(expr)
+            nodes_ = [cfg.node_of(expr)] + [cfg.nodes[i] for i in dep.defs]
+            for nd in nodes_:
+                if nd is None or nd.ast is None or nd.kind not in ("stmt", "for", "for_init"):
+                    continue
+                if any(ana.res.type_of(fi, ast.Name(id=v_, ctx=ast.Load())) == MODEL_STATE for v_ in (nd.defs or ())):
+                    continue       # a statement that *produces* a state: what it read is an earlier state
+                src = nd.ast.iter if isinstance(nd.ast, ast.For) else getattr(nd.ast, "value", nd.ast)
+                if src is None:
+                    continue
+                for n in ast.walk(src):
+                    if isinstance(n, ast.Name) and isinstance(n.ctx, ast.Load) and ana.res.type_of(fi, n) == MODEL_STATE:
+                        at = cfg.expr_node.get(id(n)) or nd
+                        out |= {d.id for d in rd.origins(at, n.id)}
+            return out
+        want = state_origins(kw["point_labels"]) if "point_labels" in kw else set()
+        for b_ in bic:
+            bn = cfg.node_of(b_.node)
+            arg = bind_args(b_.callee.func, b_.node).get("model")
+            got = {d.id for d in rd.origins(bn, arg.id)} if isinstance(arg, ast.Name) else set()
+            ok = bool(got) and bool(want) and got == want
+            ctx.check(ok, fi, "the BIC is computed from the state whose labels the result reports", line=bn.lineno, role="bic-state",
+                      expected=f"state defined at line(s) {sorted(cfg.nodes[i].lineno for i in want)}",
+                      found=f"state defined at line(s) {sorted(cfg.nodes[i].lineno for i in got)}")
     if "nothing-after-relabel" in which:
         # C06: labels, cost and likelihoods of the result describe one state - nothing refits, refills or rescores after the last relabel
         ctor = calls_to(ana, fi, "fast_ticc.containers.results.SingleDataSeriesResult")
